@@ -138,6 +138,14 @@ fn lines_of(out: &str) -> Vec<String> {
 }
 
 fn lib_outcome(cmd: &str, text: &str, stdin: &[u8]) -> J {
+    // a panic of the library (while running, or while rendering its error) is an observation, not a failure of the recorder
+    match std::panic::catch_unwind(|| lib_outcome0(cmd, text, stdin)) {
+        Ok(j) => j,
+        Err(p) => json!({"k":"library-panicked","msg":crate::exec::panic_msg(p)}),
+    }
+}
+
+fn lib_outcome0(cmd: &str, text: &str, stdin: &[u8]) -> J {
     match rrss::frontend::parser::parse(text) {
         Err(e) => json!({"k":"parse_error","msg":e.to_string()}),
         Ok(prog) => match cmd {
